@@ -4,7 +4,7 @@ location of the map, and the sourceMappingURL against the location of the genera
 states exactly that wiring.  utils.normrelpath is external here (recorded, returns an opaque key); its own
 round-trip property (join(dirname(base), normrelpath(base, target)) designates target) is a string
 function over os.path and is checked by a bounded stand-in only."""
-from vf.pyvc.dsl import Contract, Const, OneOf, Helper, PExt, PObj, PList, Str
+from vf.pyvc.dsl import Contract, Const, OneOf, Helper, PExt, PObj, PList, Str, SameAs as SameAsParam
 
 MODULE = 'calmjs.parse.sourcemap'
 
@@ -72,3 +72,143 @@ def build(smod):
         ensures=['result[0][0] == output_stream.name', 'result[0][1] is mappings', 'result[0][2] is sources', 'result[0][3] is names',
                  'result[1] == sourcemap_stream.name'], env=env, notes='normalize_paths=False'))
     return cs, [], env
+
+
+def build_write_sourcemap(smod):
+    """sourcemap.write_sourcemap: the JSON text of the map (from encode_sourcemap over the verified arguments) goes,
+    unaltered, either to the map stream (with a sourceMappingURL line naming it on the output stream) or -- when both
+    streams are the same object -- into a base64 data URL whose payload is that text encoded *strictly* in the
+    charset the URL declares."""
+    from vf.pyvc.dsl import Int
+    cs = []
+    rec = {}
+
+    def reset():
+        rec.clear()
+        rec['log'] = []
+
+    def vargs(e, a, k):
+        rec['log'].append(('verify', a, dict(k)))
+        rec['args4'] = tuple(PObj(object, name='enc_arg%d' % i) for i in range(4))
+        rec['url'] = Str.fresh('output_js_map')
+        return (rec['args4'], rec['url'])
+
+    def enc(e, a, k):
+        rec['log'].append(('encode_sourcemap', a, dict(k)))
+        rec['doc'] = PObj(object, name='doc')
+        return rec['doc']
+
+    def dumps(e, a, k):
+        rec['log'].append(('dumps', a, dict(k)))
+        text = PObj(object, name='json_text')
+
+        def encode(e2, a2, k2):
+            rec['log'].append(('text.encode', a2, dict(k2)))
+            rec['bytes'] = PObj(object, name='bytes')
+            return rec['bytes']
+        text.fields['encode'] = PExt('str.encode', encode)
+        rec['text'] = text
+        return text
+
+    def b64(e, a, k):
+        rec['log'].append(('b64encode', a, dict(k)))
+        o = PObj(object, name='b64bytes')
+
+        def dec(e2, a2, k2):
+            rec['log'].append(('b64.decode', a2, dict(k2)))
+            rec['payload'] = Str.fresh('payload')
+            return rec['payload']
+        o.fields['decode'] = PExt('bytes.decode', dec)
+        return o
+    jsonm = PObj(object, name='json')
+    jsonm.fields['dumps'] = PExt('json.dumps', dumps)
+    b64m = PObj(object, name='base64')
+    b64m.fields['b64encode'] = PExt('base64.b64encode', b64)
+
+    class Stream(object):
+        def __init__(self, label, encoding, errors):
+            self.label, self.encoding, self.errors = label, encoding, errors
+
+        def make(self, name):
+            o = PObj(object, name=self.label)
+            if self.encoding is not None:
+                o.fields['encoding'] = self.encoding if self.encoding != 'sym' else Str.fresh('stream_encoding')
+            if self.errors is not None:
+                o.fields['errors'] = self.errors
+            o.fields['writelines'] = PExt(self.label + '.writelines', lambda e, a, k: rec['log'].append((self.label + '.writelines', a, dict(k))))
+            o.fields['write'] = PExt(self.label + '.write', lambda e, a, k: rec['log'].append((self.label + '.write', a, dict(k))))
+            return o
+
+        def __repr__(self):
+            return 'Stream(%s, encoding=%s, errors=%s)' % (self.label, self.encoding, self.errors)
+
+    def same(eng, a, b):
+        if a is b:
+            return True
+        if isinstance(a, (PObj, PList)) or isinstance(b, (PObj, PList)):
+            return False
+        try:
+            return eng.compare(__import__('ast').Eq(), a, b)
+        except Exception:
+            return False
+
+    def calls(e, what):
+        return len([x for x in rec['log'] if x[0] == what])
+
+    def call_args(what):
+        return [x for x in rec['log'] if x[0] == what][0]
+
+    def strict_encode(e, encoding):
+        c = call_args('text.encode')
+        if len(c[1]) != 1 or not same(e, c[1][0], encoding) is True and same(e, c[1][0], encoding) is False:
+            pass
+        ok_enc = same(e, c[1][0], encoding) if c[1] else same(e, c[2].get('encoding'), encoding)
+        errs = c[1][1] if len(c[1]) > 1 else c[2].get('errors', 'strict')
+        return ok_enc is not False and errs == 'strict' and (ok_enc if ok_enc is not True else True)
+
+    def line_item(e, what, i):
+        lst = call_args(what)[1][0]
+        items = lst.val if isinstance(lst, PList) else list(lst)
+        return items[i]
+    env = {'__reset__': reset, 'verify_write_sourcemap_args': PExt('verify_write_sourcemap_args', vargs),
+           'encode_sourcemap': PExt('encode_sourcemap', enc), 'json': jsonm, 'base64': b64m,
+           'calls': Helper(calls), 'strict_encode': Helper(strict_encode), 'line_item': Helper(line_item),
+           'line_len': Helper(lambda e, what: len(call_args(what)[1][0].val if isinstance(call_args(what)[1][0], PList) else call_args(what)[1][0])),
+           'payload': Helper(lambda e: rec.get('payload')), 'url': Helper(lambda e: rec['url']), 'text': Helper(lambda e: rec['text']),
+           'arg0': Helper(lambda e, what: call_args(what)[1][0]), 'doc': Helper(lambda e: rec['doc']),
+           'b64_of_encoded': Helper(lambda e: call_args('b64encode')[1][0] is rec.get('bytes')),
+           'encoded_args': Helper(lambda e: tuple(call_args('encode_sourcemap')[1]) == tuple(rec['args4'])),
+           'default_encoding': smod.default_encoding}
+    common = dict(mappings=Const('M'), sources=Const('S'), names=Const('N'), normalize_paths=Const(True))
+    # inline: the same stream object
+    for enc_kind, encoding in (('declared encoding', 'sym'), ('no encoding attribute', None)):
+        for errors in (None, 'replace', 'ignore'):
+            want_enc = 'output_stream.encoding' if encoding else 'default_encoding'
+            if encoding == 'sym':
+                req = ['len(output_stream.encoding) > 0']
+            else:
+                req = []
+            cs.append(Contract(
+                MODULE + ':write_sourcemap',
+                params=dict(common, output_stream=Stream('out', encoding, errors), sourcemap_stream=SameAsParam('output_stream'),
+                            source_mapping_url=Const(NotImplemented)),
+                requires=req,
+                ensures=['encoded_args()', "arg0('dumps') is doc()", "calls('text.encode') == 1", 'strict_encode(%s)' % want_enc, 'b64_of_encoded()',
+                         "calls('out.writelines') == 1", "calls('out.write') == 0", "line_len('out.writelines') == 4",
+                         "line_item('out.writelines', 0) == '\\n//# sourceMappingURL=data:application/json;base64;charset='",
+                         "line_item('out.writelines', 1) == %s" % want_enc, "line_item('out.writelines', 2) == ','",
+                         "line_item('out.writelines', 3) is payload()"],
+                env=env, notes='inline, %s, errors=%s' % (enc_kind, errors)))
+    # separate streams
+    for smu_label, smu, nlines in (('default url', Const(NotImplemented), 1), ('explicit url', Const('explicit.map'), 1), ('no url', Const(None), 0)):
+        ens = ['encoded_args()', "arg0('dumps') is doc()", "calls('map.write') == 1", "arg0('map.write') is text()", "calls('map.writelines') == 0",
+               "calls('out.write') == 0", "calls('out.writelines') == %d" % nlines, "calls('text.encode') == 0"]
+        if nlines:
+            ens += ["line_len('out.writelines') == 3", "line_item('out.writelines', 0) == '\\n//# sourceMappingURL='",
+                    "line_item('out.writelines', 2) == '\\n'",
+                    "line_item('out.writelines', 1) == 'explicit.map'" if smu_label == 'explicit url' else "line_item('out.writelines', 1) is url()"]
+        cs.append(Contract(
+            MODULE + ':write_sourcemap',
+            params=dict(common, output_stream=Stream('out', 'sym', 'replace'), sourcemap_stream=Stream('map', 'sym', None), source_mapping_url=smu),
+            ensures=ens, env=env, notes='separate streams, %s' % smu_label))
+    return cs
